@@ -172,6 +172,10 @@ def mk_probes(tier, only=None):
                 P.append(BfOpProbe("bf/xorassign/%s/w%d/o%d" % (t.cid, w, o), f, decl.replace("C_" + P[-1].fn, "C_" + f), t, w, o, "p->f ^= v; return p->f;", "^"))
                 f = fn()
                 P.append(BfOpProbe("bf/preinc/%s/w%d/o%d" % (t.cid, w, o), f, decl.replace("C_" + P[-2].fn, "C_" + f), t, w, o, "++p->f; return p->f;", "inc"))
+                f = fn()
+                P.append(BfOpProbe("bf/postinc-value/%s/w%d/o%d" % (t.cid, w, o), f, decl.replace("C_" + P[-3].fn, "C_" + f), t, w, o, "return p->f++;", "postinc"))
+                f = fn()
+                P.append(BfOpProbe("bf/postdec-stored/%s/w%d/o%d" % (t.cid, w, o), f, decl.replace("C_" + P[-4].fn, "C_" + f), t, w, o, "p->f--; return p->f;", "dec"))
     if want("copy"):
         sizes = range(1, 41) if full else [1, 2, 3, 4, 7, 8, 9, 12, 15, 16, 17, 24, 31, 32, 33, 40]
         for sz in sizes:
@@ -214,8 +218,14 @@ class BfOpProbe(MemProbe):
         # initial field value from initial memory (little endian, storage unit at offset 0 of the struct)
         unit = self.initial(M, 0, 0, t.size)
         old = bf_value(z3.LShR(unit, bv(o, t.bits)), t, w)
+        if self.op == "postinc":
+            # the value of p->f++ is the OLD value of the bit-field (6.5.2.4p2); the store wraps at the field width
+            got = z3.Extract(t.bits - 1, 0, s.regs["rax"]) if t.bits < 64 else s.regs["rax"]
+            return [e2.Goal("value", H, got == old, note="value of postfix ++ on a %d-bit %s bit-field at bit %d is its old value" % (w, t.name, o))]
         if self.op == "inc":
             newv, rt, d = cref.binop("+", old, t, z3.BitVecVal(1, 32), INT)
+        elif self.op == "dec":
+            newv, rt, d = cref.binop("-", old, t, z3.BitVecVal(1, 32), INT)
         else:
             newv, rt, d = cref.binop(self.op, old, t, v, t)
         stored = conv(newv, rt, t)
@@ -247,6 +257,13 @@ class CopyProbe(MemProbe):
 def addr_probes(fn, full):
     """address computations against the psABI layout model (lib/abi.py)"""
     P = []
+    # pointer to a whole array: &arr has type int (*)[4], so &arr + k advances by k whole arrays (6.5.3.2p3, 6.5.6p8)
+    for nm, body, scale in [("address-of-array-plus-k", "static int arr[4]; return (char *)(&arr + a) - (char *)arr;", 16),
+                            ("pointer-to-array-plus-k", "static int arr[3][4]; int (*p)[4] = arr; return (char *)(p + a) - (char *)arr;", 16),
+                            ("address-of-row-plus-k", "static int arr[3][4]; return (char *)(&arr[1] + a) - (char *)arr;", 16),
+                            ("deref-address-of-array", "static int arr[4]; return (char *)(*&arr + a) - (char *)arr;", 4)]:
+        P.append(e2.ScalarProbe("addr/array/%s" % nm, fn(), LONG, [LONG], body,
+                                (lambda scale, nm: lambda a: (z3.BitVecVal(scale, 64) * a + (16 if nm == "address-of-row-plus-k" else 0), TRUE))(scale, nm), family="addr"))
     INNER = abi.struct("In", [("x", abi.CHAR), ("y", abi.DOUBLE), ("z", (abi.SHORT, 3))])
     OUTER = abi.struct("Out", [("a", abi.CHAR), ("in", (INNER, 2)), ("b", abi.INT), ("ld", abi.LDOUBLE), ("u", abi.struct("Un", [("i", abi.INT), ("d", abi.DOUBLE)], union=True))])
     PT = cref.T("struct Out *", 64, False, rank=4)
